@@ -284,16 +284,23 @@ def _template_body(draw, cfg, name, n, m, cv, x, y, c, cmp_, eqne):
             parts.append((eqne(), v, k) if draw(st.integers(0, 3)) else (eqne(), k, v))
         return (draw(st.sampled_from(("and", "or"))), *parts)
     if name == "rot_mask":
-        nb = draw(st.sampled_from((32, 64, 16, 8)))
+        # (v << a | v >>> b) & mask: the rewrite fires when a + b is 32 or 64 and the mask, rotated back, is 0xffff /
+        # 0xffffffff -- generated with the sum, the width and the mask chosen independently so that every near miss
+        # (sum != width, mask rotated within the wrong width) is common
+        nb = draw(st.sampled_from((32, 64, 64, 16, 8, 48, 96, 128)))
         v = draw(bv_vars(nb))
-        a = draw(st.integers(0, nb))
-        b = draw(st.sampled_from((nb - a, nb - a, draw(st.integers(0, nb)))))
-        if b < 0:
-            b = 0
-        msk = draw(st.sampled_from((0xFFFF, 0xFFFFFFFF, 0xFFFF << a, (0xFFFF << a | 0xFFFF >> max(b, 0)), 0xFFFFFFFF << a, 0xFF)))
-        msk2 = draw(st.sampled_from((msk, ((msk << a) | (msk >> b)))))
+        total = draw(st.sampled_from((32, 64, nb, nb)))
+        a = draw(st.integers(0, min(total, nb)))
+        b = draw(st.sampled_from((total - a, total - a, total - a, draw(st.integers(0, nb)))))
+        b = max(0, min(b, nb))
+        magic = draw(st.sampled_from((0xFFFF, 0xFFFFFFFF, 0xFF, 0xFFFF0000)))
+        mt = (1 << total) - 1
+        rotl = ((magic << a) | (magic >> max(total - a, 0))) & mt
+        msk = draw(st.sampled_from((rotl, rotl, rotl, magic, magic << a, 0xFFFF << a | 0xFFFF >> b)))
         rot = ("bvor", ("bvshl", v, _c(a, nb)), ("bvlshr", v, _c(b, nb)))
-        return ("bvand", rot, _c(msk2, nb))
+        if draw(st.integers(0, 5)) == 0:
+            rot = ("bvor", rot[2], rot[1])
+        return ("bvand", rot, _c(msk, nb)) if draw(st.integers(0, 3)) else ("bvand", _c(msk, nb), rot)
     if name == "minmax":
         q, r = draw(bv_vars(n, 2)), draw(st.one_of(bv_vars(n, 2), consts(n)))
         first = draw(st.booleans())
